@@ -368,15 +368,26 @@ impl Drop for Canary {
 }
 
 pub async fn start_canary() -> Canary {
-    let l = tokio::net::TcpListener::bind("127.0.0.1:0").await.expect("canary bind");
-    let addr = l.local_addr().unwrap();
+    // one port number served on 127.0.0.1 and on ::1
+    let (l, l6, addr) = loop {
+        let l = tokio::net::TcpListener::bind("127.0.0.1:0").await.expect("canary bind");
+        let addr = l.local_addr().unwrap();
+        if let Ok(l6) = tokio::net::TcpListener::bind(("::1", addr.port())).await {
+            break (l, l6, addr);
+        }
+    };
     let accepted = std::sync::Arc::new(std::sync::atomic::AtomicU32::new(0));
     let received = std::sync::Arc::new(std::sync::Mutex::new(Vec::new()));
     let a2 = accepted.clone();
     let r2 = received.clone();
     let task = tokio::spawn(async move {
         loop {
-            let Ok((mut s, _)) = l.accept().await else { break };
+            let acc = tokio::select! {
+                biased;
+                a = l.accept() => a,
+                a = l6.accept() => a,
+            };
+            let Ok((mut s, _)) = acc else { break };
             a2.fetch_add(1, std::sync::atomic::Ordering::SeqCst);
             let r3 = r2.clone();
             tokio::spawn(async move {
@@ -400,4 +411,51 @@ pub async fn start_canary() -> Canary {
         }
     });
     Canary { addr, accepted, received, task }
+}
+
+/// A loopback port on which `connect` never completes: a listener with backlog 0 whose accept
+/// queue is already full (further SYNs are dropped by the kernel).
+pub struct BlackHole {
+    pub port: u16,
+    fd: i32,
+    _filler: Vec<std::net::TcpStream>,
+}
+
+impl Drop for BlackHole {
+    fn drop(&mut self) {
+        unsafe {
+            libc::close(self.fd);
+        }
+    }
+}
+
+pub fn black_hole() -> Result<BlackHole, String> {
+    unsafe {
+        let fd = libc::socket(libc::AF_INET, libc::SOCK_STREAM, 0);
+        if fd < 0 {
+            return Err("socket".into());
+        }
+        let mut a: libc::sockaddr_in = std::mem::zeroed();
+        a.sin_family = libc::AF_INET as libc::sa_family_t;
+        a.sin_addr.s_addr = u32::from_ne_bytes([127, 0, 0, 1]);
+        if libc::bind(fd, &a as *const _ as *const libc::sockaddr, std::mem::size_of::<libc::sockaddr_in>() as u32) != 0 {
+            return Err("bind".into());
+        }
+        if libc::listen(fd, 0) != 0 {
+            return Err("listen".into());
+        }
+        let mut len = std::mem::size_of::<libc::sockaddr_in>() as libc::socklen_t;
+        libc::getsockname(fd, &mut a as *mut _ as *mut libc::sockaddr, &mut len);
+        let port = u16::from_be(a.sin_port);
+        // fill the accept queue (backlog 0 admits one established connection; a second one may
+        // sit in the SYN queue): two fillers make every later connect hang
+        let mut filler = vec![];
+        for _ in 0..2 {
+            let s = std::net::TcpStream::connect_timeout(&SocketAddr::from(([127, 0, 0, 1], port)), Duration::from_millis(200));
+            if let Ok(s) = s {
+                filler.push(s);
+            }
+        }
+        Ok(BlackHole { port, fd, _filler: filler })
+    }
 }
